@@ -42,6 +42,10 @@ def run(ck):
     funcs = [f for f in prog.funcs.values() if f.file.endswith("/pistache/async.h")]
     ck.require(len(funcs) > 50, "async.h functions not found")
 
+    # R3: a core's mutex is always given back
+    lib.guard_release_rule(ck, "C12-R3", lambda f_: f_.file.endswith("/pistache/async.h"),
+                           "the mutexes of promise cores (and of the whenAll / whenAny state) are always given back", 20)
+
     _ls_memo = {}
 
     def ls_of(fn_):
